@@ -246,3 +246,52 @@ def run_replay(path, replayers):
         print(f"VIOLATION property={rec['property']} replay={path}")
         return EXIT_VIOLATION
     return EXIT_OK
+
+
+def _eq_term(impl, ref):
+    from .real import S
+
+    if isinstance(ref, tuple):
+        return z3.Or(*[S.lift(impl).t == S.lift(r).t for r in ref])
+    if isinstance(impl, (bool,)) or isinstance(ref, (bool,)):
+        return z3.BoolVal(bool(impl) == bool(ref))
+    return S.lift(impl).t == S.lift(ref).t
+
+
+def prove_pairs(chk, cname, pairs, facts, replay_for, key_for, sample=None):
+    """pairs: [(label, implementation value, oracle value)].  One solver query for the conjunction;
+    on failure one per pair (localisation + replay).  Returns True iff all proved."""
+    eqs = [(lab, _eq_term(impl, ref)) for lab, impl, ref in pairs]
+    if not eqs:
+        return True
+    conj = z3.And(*[e for _, e in eqs])
+    v = chk.prover.prove(conj, facts, cname)
+    chk.evaluations += 1
+    if v.status == "unsat":
+        chk.obligations += len(eqs)
+        chk.discharged += len(eqs)
+        chk.nontrivial.add(cname)
+        if sample is not None and len(chk.samples) < 4:
+            chk.sample(sample)
+        return True
+    ok = True
+    for lab, e in eqs:
+        if not chk.prove(f"{cname}:{lab}", e, facts, key=key_for(lab), replay=replay_for(lab),
+                         what=f"{cname}: {lab} violates the relation"):
+            ok = False
+    return ok
+
+
+def float_pairs_differ(pairs, label=None, rtol=1e-9):
+    bad = []
+    for lab, impl, ref in pairs:
+        if label and lab != label:
+            continue
+        if isinstance(ref, bool) or isinstance(impl, bool):
+            if bool(impl) != bool(ref):
+                bad.append((lab, impl, ref))
+            continue
+        refs = ref if isinstance(ref, tuple) else (ref,)
+        if all(abs(float(impl) - float(r)) > rtol * max(1.0, abs(float(r))) for r in refs):
+            bad.append((lab, float(impl), [float(r) for r in refs]))
+    return bad
